@@ -190,7 +190,7 @@ func init() {
 		ID: "C12",
 		Rule: fmt.Sprintf("monitor A (plain build): a deep snapshot (contents plus the whole backing array of every reachable slice up to cap, with sentinel members planted in the spare capacity) is taken before and after each of %d read-only operations (both encoders in package and method form, MarshalBinary, ItemsEqual, formatting, IsNil/NotEmpty/predicates, DerefItem, ordering, collection and language accessors, every On*/To* with a reading callback) on generated values of all 14 kinds, value forms and lists; any difference is a violation attributed to the operation. "+
 			"Monitor B (race build): per shared value G in {4,16} goroutines x 60/20 (quick) or 200/60 (thorough) iterations apply a random interleaving of the same operations while G more goroutines decode unrelated documents (JSON and gob); every concurrent result must equal the sequential result recorded beforehand and the race detector must report nothing; the number of distinct operation pairs that actually overlapped is measured with an in-flight matrix kept outside the shared value; distinct = (value fingerprint, operation); non-trivial = values with at least one slice-valued property set", nOps),
-		Builds: func(tier string) []string { return []string{"plain", "race"} },
+		Builds:   func(tier string) []string { return []string{"plain", "race"} },
 		OneShard: []string{},
 		Layers: func(tier string) []Layer {
 			return []Layer{
